@@ -26,8 +26,12 @@ class Rand:
 
     def randint(self, a, b):
         # first call in MessageManager.__init__ (mid), TokenManager.__init__ (token)
+        # each context draws one token and one message ID; later contexts get shifted
+        # values so that two contexts in one loop never share tokens / IDs
+        n = self._randint_calls // 2
         self._randint_calls += 1
-        return self.mid0 if self.which == "mid" else self.tok0
+        base = self.mid0 if self.which == "mid" else self.tok0
+        return (base + 0x1111 * n) & 0xFFFF
 
     def uniform(self, a, b):
         f = self.fractions.pop(0) if self.fractions else 0.0
